@@ -355,6 +355,7 @@ def etag_lists(cur):
         f'{tag_text(other, False)} ,\t{tag_text(other, True)}', f'w/"{o}"', f'{tag_text(o, False)},',
         tag_text(o + "x", False), tag_text(o[:-1], False) if len(o) > 1 else '"q"', tag_text(o.upper(), False) if o.upper() != o else '"Q"',
         f'"{other}", W/"{o}", "{other}2"',
+        '"*"', 'W/"*"', f'"*", {tag_text(other, False)}',      # a quoted star is an ordinary entity-tag, not the wildcard
     ]
 
 
